@@ -10,7 +10,7 @@ import common
 import corechecks
 
 THEOREMS = ['C01_invariant', 'C01_step', 'C01_association', 'C01_partition', 'C01_nodupFast']
-MODULE = [('NautilusVerif.Properties.C01', THEOREMS), ('NautilusVerif.Properties.CoreRun', ['Run_phase', 'C01_run']),
+MODULE = [('NautilusVerif.Properties.C01', THEOREMS), ('NautilusVerif.Properties.CoreRun', ['Run_phase', 'C01_run', 'C01_run_session']),
           *common.core_tie(['addBound', 'addSamples', 'sampleShell', 'shellAssociation'])]
 FILES = ['nautilus/sampler.py']
 INVARIANTS = ['inshells', 'tlast', 'nodup', 'run']
